@@ -21,6 +21,10 @@
 (*                   truth value of the position instead of `is None`: a body that starts at offset 0       *)
 (*                   is re-recorded at the redirected call (now at end of file), and the SECOND redirect     *)
 (*                   in a row re-sends it empty                                                            *)
+(*             "ShortReadIsEOF"  (never in the code; TLC must refute it) chunk_readable stops after a block       *)
+(*                   shorter than the blocksize instead of reading until read() returns an empty block: the         *)
+(*                   framing stays valid, the body of a short-reading stream is silently truncated - and every        *)
+(*                   re-send is truncated the same way, so only PayloadEqualsBody (against the body's bytes) shows it  *)
 (*           With D = {} the model is the design (a marker _FAILEDTELL for unreplayable bodies).          *)
 (*           (D4 - body_pos not carried across the manager-level redirect - was repaired in /repo by      *)
 (*           b489f4f and its deviation action has been deleted from this model.)                          *)
@@ -36,17 +40,26 @@ EXTENDS Wire
 \* Every MODEL operator takes D, the set of deviations that are enabled: the model checker fixes it per run,
 \* the trace monitor asks which D describes a recorded run.
 Z0 == "ZeroPosTreatedAsUnset"
-Defects == {"D3", Z0}
+SR == "ShortReadIsEOF"
+Defects == {"D3", Z0, SR}
 
 -----------------------------------------------------------------------------
 (* Body kinds                                                                   *)
 
 Kinds == {"none", "bytes", "str", "buffer", "file", "textfile", "notell", "badseek", "badtell",
-          "list", "strlist", "gen"}
-FileLike == {"file", "textfile", "notell", "badseek", "badtell"}     \* hasattr(body, "read")
-HasTell == {"file", "textfile", "badseek", "badtell"}
-HasSeek == {"file", "textfile", "badseek", "badtell"}
-OneShot == {"notell", "gen"}                \* reading consumes it and nothing can bring it back
+          "list", "strlist", "gen", "shortfile", "shorttextfile", "shortpipe", "shorttextpipe"}
+\* file-like bodies (hasattr(body, "read")) come in two read disciplines:
+\*   reads in full blocks   read(n) returns n units until the data runs out (BytesIO, regular files)
+\*   may return short blocks  read(n) returns a NON-EMPTY block shorter than n while more data follows (raw pipes, unbuffered
+\*                          streams, throttling / progress wrappers); only an EMPTY block means end of data
+\* ShortReaders: "shortfile" / "shorttextfile" can tell and seek (a re-send must be identical), "shortpipe" / "shorttextpipe"
+\* cannot (one-shot: the D3 class for re-sends); each read returns at most ShortRead(sc) units
+ShortReaders == {"shortfile", "shorttextfile", "shortpipe", "shorttextpipe"}
+FileLike == {"file", "textfile", "notell", "badseek", "badtell"} \cup ShortReaders
+HasTell == {"file", "textfile", "badseek", "badtell", "shortfile", "shorttextfile"}
+HasSeek == HasTell
+OneShot == {"notell", "gen", "shortpipe", "shorttextpipe"}      \* reading consumes it and nothing can bring it back
+Rewindable == {"file", "textfile", "shortfile", "shorttextfile"}  \* tell and seek work
 Replayable == {"bytes", "str", "buffer", "list", "strlist"}
 
 \* scenario:  [kind, content : Seq(Symbol), start : Nat,     the underlying data; the body is content[start+1..]
@@ -67,6 +80,7 @@ Want(sc) == IF sc.kind = "none" THEN <<>> ELSE Enc(sc.kind, BodyData(sc))
 
 \* re-iterable bodies are lists with empty chunks at the start and in the middle
 ListChunks(d) == LET h == Len(d) \div 2 IN << <<>>, SubSeq(d, 1, h), <<>>, SubSeq(d, h + 1, Len(d)) >>
+ShortRead(sc) == IF sc.bs > 1 THEN sc.bs - 1 ELSE 1       \* what one read of a short-reading stream returns at most
 RECURSIVE Blocks(_, _)
 Blocks(s, n) == IF s = <<>> THEN <<>> ELSE IF Len(s) <= n THEN <<s>> ELSE <<SubSeq(s, 1, n)>> \o Blocks(SubSeq(s, n + 1, Len(s)), n)
 
@@ -193,42 +207,51 @@ EnterCase(D, sc, st) ==
     ELSE IF k \in OneShot /\ "D3" \notin D THEN "MarkUnreplayable"
     ELSE "NoPosition"
 
+\* chunk_readable: read(blocksize) until an EMPTY block comes back; a short-reading stream hands out ShortRead units at a time.
+\* (deviation ShortReadIsEOF: stop after the first block that is shorter than the blocksize)
+UntilShort(blocks, bs) == IF \E i \in 1..Len(blocks) : Len(blocks[i]) < bs
+                          THEN SubSeq(blocks, 1, CHOOSE i \in 1..Len(blocks) : Len(blocks[i]) < bs /\ \A j \in 1..(i - 1) : Len(blocks[j]) >= bs)
+                          ELSE blocks
+ReadBlocks(D, sc, cursor) ==
+    LET all == Blocks(SubSeq(sc.content, cursor + 1, Len(sc.content)), IF sc.kind \in ShortReaders THEN ShortRead(sc) ELSE sc.bs)
+    IN IF SR \in D THEN UntilShort(all, sc.bs) ELSE all
+
 \* what the body yields when it is iterated now (st.used = chunks already taken from a one-shot iterator)
-Yield(sc, st) ==
+Yield(D, sc, st) ==
     LET k == IF st.hasBody THEN sc.kind ELSE "none" IN
     CASE k = "none" -> <<>>
       [] k \in {"bytes", "str", "buffer"} -> <<BodyData(sc)>>
-      [] k \in FileLike -> Blocks(SubSeq(sc.content, st.cursor + 1, Len(sc.content)), sc.bs)
+      [] k \in FileLike -> ReadBlocks(D, sc, st.cursor)
       [] k \in {"list", "strlist"} -> ListChunks(BodyData(sc))
       [] k = "gen" -> SubSeq(ListChunks(BodyData(sc)), st.used + 1, 4)
 
-NowReq(sc, st) == ReqOf(sc, st, Yield(sc, st))
-WireOf(sc, st) == Serialize("pool", NowReq(sc, st))
-HeadOf(sc, st) == SerializeHead("pool", NowReq(sc, st))
+NowReq(D, sc, st) == ReqOf(sc, st, Yield(D, sc, st))
+WireOf(D, sc, st) == Serialize("pool", NowReq(D, sc, st))
+HeadOf(D, sc, st) == SerializeHead("pool", NowReq(D, sc, st))
 
 \* the first body write of the attempt: the first non-empty chunk (empty ones are skipped without a write),
 \* else the terminating chunk when the framing is chunked, else there is none
 FirstNonEmpty(chunks) == IF \E i \in 1..Len(chunks) : chunks[i] # <<>> THEN CHOOSE i \in 1..Len(chunks) : chunks[i] # <<>> /\ \A j \in 1..(i - 1) : chunks[j] = <<>> ELSE 0
-HasBodyWrite(sc, st) == FirstNonEmpty(Yield(sc, st)) > 0 \/ FramingMode(NowReq(sc, st)) = "chunked"
-Breaks(sc, st) == st.left # <<>> /\ Head(st.left) = "errsend" /\ HasBodyWrite(sc, st)
+HasBodyWrite(D, sc, st) == FirstNonEmpty(Yield(D, sc, st)) > 0 \/ FramingMode(NowReq(D, sc, st)) = "chunked"
+Breaks(D, sc, st) == st.left # <<>> /\ Head(st.left) = "errsend" /\ HasBodyWrite(D, sc, st)
 
 \* body_to_chunks + HTTPConnection.request, then the peer reads the message
-Send(sc, st) ==
+Send(D, sc, st) ==
     LET k == IF st.hasBody THEN sc.kind ELSE "none"
-        w == WireOf(sc, st) IN
+        w == WireOf(D, sc, st) IN
     [st EXCEPT !.pc = "reply",
                !.atts = Append(st.atts, Observe(w)),
                !.wires = Append(st.wires, w),
-               !.cursor = IF k \in FileLike THEN Len(sc.content) ELSE st.cursor,
+               !.cursor = IF k \in FileLike THEN st.cursor + Len(Flatten(ReadBlocks(D, sc, st.cursor))) ELSE st.cursor,
                !.used = IF k = "gen" THEN 4 ELSE st.used]
 
 \* the same, but the write of the first body chunk fails: the peer has the head only, and the body has been
 \* consumed up to and including the chunk that could not be written
-SendBreaks(sc, st) ==
+SendBreaks(D, sc, st) ==
     LET k == IF st.hasBody THEN sc.kind ELSE "none"
-        chunks == Yield(sc, st)
+        chunks == Yield(D, sc, st)
         i == FirstNonEmpty(chunks)
-        w == HeadOf(sc, st) IN
+        w == HeadOf(D, sc, st) IN
     [st EXCEPT !.pc = "reply",
                !.atts = Append(st.atts, [Observe(w) EXCEPT !.complete = FALSE]),
                !.wires = Append(st.wires, w),
@@ -253,7 +276,7 @@ Reply(D, sc, st) ==
 ActionName(D, sc, st) ==
     CASE st.pc = "menter" -> (IF ManagerUnset(D, st) THEN "ActManagerRecords" ELSE "ActManagerKeeps")
       [] st.pc = "enter" -> "Act" \o EnterCase(D, sc, st)
-      [] st.pc = "send" -> (IF Breaks(sc, st) THEN "ActSendBreaks" ELSE "ActSend")
+      [] st.pc = "send" -> (IF Breaks(D, sc, st) THEN "ActSendBreaks" ELSE "ActSend")
       [] st.pc = "reply" -> (LET o == Head(st.left) IN
                              CASE o = "ok" -> "ActReturn" [] o \in {"err", "errsend", "503"} -> "ActRetry"
                                [] o \in {"307", "308"} -> (IF sc.client = "mgr" THEN "ActManagerRedirect" ELSE "ActPoolRedirect")
@@ -262,7 +285,7 @@ ActionName(D, sc, st) ==
 Step(D, sc, st) ==
     LET nx == CASE st.pc = "menter" -> ManagerEnter(D, sc, st)
                 [] st.pc = "enter" -> Enter(D, sc, st)
-                [] st.pc = "send" -> (IF Breaks(sc, st) THEN SendBreaks(sc, st) ELSE Send(sc, st))
+                [] st.pc = "send" -> (IF Breaks(D, sc, st) THEN SendBreaks(D, sc, st) ELSE Send(D, sc, st))
                 [] st.pc = "reply" -> Reply(D, sc, st) [] st.pc = "done" -> st
     IN IF st.pc = "done" THEN st ELSE [nx EXCEPT !.trail = Append(st.trail, ActionName(D, sc, st))]
 
@@ -291,6 +314,8 @@ ManagerRedirectBefore(sc, j) == sc.client = "mgr" /\ \E i \in 1..(j - 1) : i <= 
 InClassD3(sc, j) == sc.kind \in OneShot /\ HasResendBefore(sc, j)
 \* the only place where "position 0 counts as unset" can bite: a seekable body at offset 0, PoolManager, and at least
 \* two manager-level redirects before the attempt
+\* the only place where "a short block means end of data" can bite: a short-reading stream with more data after its first block
+InClassSR(sc) == sc.kind \in ShortReaders /\ Len(BodyData(sc)) > ShortRead(sc)
 InClassZ0(sc, j) == /\ sc.client = "mgr" /\ sc.kind \in HasTell /\ sc.start = 0
                     /\ Cardinality({i \in 1..(j - 1) : i <= Len(sc.hist) /\ sc.hist[i] \in {"307", "308"}}) >= 2
 =============================================================================
